@@ -9,16 +9,20 @@ Open Scope N_scope.
 Definition src_params : option params :=
   match tid_any, tid_i8, tid_i16, tid_i32, tid_i64 with
   | Some a, Some t8, Some t16, Some t32, Some t64 =>
+    match tid_dec64, tid_dec128 with
+    | Some td64, Some td128 =>
     match no_cast_score, refined_literal_bonus, variadic_same_score with
     | Some nc, Some bo, Some sm =>
       match default_score_i8, default_score_i16, default_score_i32, default_score_i64 with
       | Some d8, Some d16, Some d32, Some d64 =>
         Some {| p_scores := score_table; p_ntypes := n_types; p_nocast := nc; p_bonus := bo; p_same := sm;
-                p_any := a; p_i8 := t8; p_i16 := t16; p_i32 := t32; p_i64 := t64;
+                p_any := a; p_i8 := t8; p_i16 := t16; p_i32 := t32; p_i64 := t64; p_dec64 := td64; p_dec128 := td128;
                 p_d8 := d8; p_d16 := d16; p_d32 := d32; p_d64 := d64 |}
       | _, _, _, _ => None
       end
     | _, _, _ => None
+    end
+    | _, _ => None
     end
   | _, _, _, _, _ => None
   end.
